@@ -9,6 +9,7 @@ import (
 	"os"
 	"runtime"
 	"runtime/debug"
+	"strconv"
 	"strings"
 	"sync/atomic"
 	"testing"
@@ -70,6 +71,9 @@ func TestWorker(t *testing.T) {
 	limit := time.Duration(job.RunTimeout) * time.Second
 	if limit <= 0 {
 		limit = 40 * time.Second
+		if v, err := strconv.Atoi(os.Getenv("SIM_WATCHDOG_MS")); err == nil && v > 0 {
+			limit = time.Duration(v) * time.Millisecond // (to exercise the driver's handling of stalls)
+		}
 	}
 	go func() {
 		for {
